@@ -239,6 +239,14 @@ def h_dispatch(ctx, n, r):
     I, B = teneva._maxvol(A)
     ctx.claim('all_rows', [int(i) for i in I] == list(range(n)))
     ctx.claim('B_identity', ctx.all_eq(B, eye(ctx, n)))
+    # the caller reorders / rescales what it got; the next call on a matrix of the same height is not affected
+    if I.flags.writeable:
+        I[...] = I[::-1].copy()
+    if B.flags.writeable:
+        B[...] = B * 3 + 1
+    I2, B2 = teneva._maxvol(mat(ctx, 'c', n, r))
+    ctx.claim('all_rows_second_call', [int(i) for i in I2] == list(range(n)))
+    ctx.claim('B_identity_second_call', ctx.all_eq(B2, eye(ctx, n)))
 
 
 def instances(tier):
@@ -255,9 +263,10 @@ def instances(tier):
     for rows in ([[3, 2, -5], [-3, 6, -2], [-4, -3, -1], [3, -6, -5], [1, -6, 3], [3, 3, 6]],      # 4 exchanges, 3 outside rows
                  [[6, -1], [5, 1], [-5, 5], [-3, 5], [-3, -4]]):                                      # 3 exchanges, 3 outside rows
         out.append({'func': 'h_maxvol_chain', 'params': {'rows': rows, 'k': 8}})
-    rect = [(3, 1, 0, 1, 1), (3, 1, 1, 2, 1), (3, 2, 0, 1, 1), (4, 2, 0, 1, 1), (3, 1, 0, 0, 1), (3, 2, 0, 0, 1)] if tier == 'quick' else \
+    rect = [(3, 1, 0, 1, 1), (3, 1, 1, 2, 1), (3, 2, 0, 1, 1), (4, 2, 0, 1, 1), (3, 1, 0, 0, 1), (3, 2, 0, 0, 1),
+            (3, 2, 0, None, 1), (3, 1, 1, None, 1)] if tier == 'quick' else \
         [(3, 1, 0, 1, 1), (3, 1, 1, 2, 1), (3, 1, 0, 2, 2), (3, 2, 0, 1, 1), (3, 2, 1, 1, 1), (4, 2, 0, 2, 1), (3, 1, 0, 0, 1), (4, 2, 0, 0, 1),
-         (4, 2, 1, 2, 1), (4, 1, 0, 3, 1), (3, 1, 0, None, 1)]
+         (4, 2, 1, 2, 1), (4, 1, 0, 3, 1), (3, 1, 0, None, 1), (3, 2, 0, None, 1), (3, 1, 1, None, 1), (4, 2, 1, None, 1)]
     for (n, r, a, b, k0) in rect:
         for p in perms(n, r, False)[:2 if tier == 'quick' else 3]:
             out.append({'func': 'h_maxvol_rect', 'params': {'n': n, 'r': r, 'perm': list(p),
